@@ -31,6 +31,8 @@ pub enum Step {
     Data(Vec<u8>),
     Eof,
     Fail,
+    /// fail with this error kind
+    FailKind(std::io::ErrorKind),
 }
 
 /// Delivers the scripted steps; a Data step larger than the caller's buffer is split.
@@ -48,6 +50,7 @@ impl futures_io::AsyncRead for ScriptReader {
         match self.steps.pop_front() {
             None | Some(Step::Eof) => Poll::Ready(Ok(0)),
             Some(Step::Fail) => Poll::Ready(Err(std::io::Error::new(std::io::ErrorKind::Other, "scripted"))),
+            Some(Step::FailKind(k)) => Poll::Ready(Err(std::io::Error::new(k, "scripted"))),
             Some(Step::Data(d)) => {
                 let n = d.len().min(buf.len());
                 buf[..n].copy_from_slice(&d[..n]);
